@@ -2,6 +2,7 @@ package c14
 
 import (
 	"fmt"
+	"hash/fnv"
 	"math"
 	"testing"
 
@@ -51,7 +52,24 @@ func (b *tsdBlock) at(slot int) (uint64, bool) {
 }
 
 func (b *tsdBlock) String() string {
+	if len(b.mask) > 96 {
+		return fmt.Sprintf("start=%d slots=%d mask=%s... vals(%d)=%v... fnv=%x", b.start, len(b.mask), maskString(b.mask[:96]), len(b.vals), hex(capList(b.vals, 24)), b.hash())
+	}
 	return fmt.Sprintf("start=%d mask=%s vals=%v", b.start, maskString(b.mask), hex(b.vals))
+}
+
+// hash identifies a long block in canonical strings / messages.
+func (b *tsdBlock) hash() uint64 {
+	h := fnv.New64a()
+	_, _ = h.Write([]byte(maskString(b.mask)))
+	for _, v := range b.vals {
+		var x [8]byte
+		for i := range x {
+			x[i] = byte(v >> (8 * uint(i)))
+		}
+		_, _ = h.Write(x[:])
+	}
+	return h.Sum64()
 }
 
 func (b *tsdBlock) sample() map[string]any {
@@ -62,7 +80,7 @@ func (b *tsdBlock) sample() map[string]any {
 // path, where +Inf means "no value in this slot": there the model treats a +Inf value as an empty slot.
 func genBlock(t *rapid.T, label string, api string) (*tsdBlock, string) {
 	n := genLen(t, label+"n")
-	if rapid.IntRange(0, 49).Draw(t, label+"huge") == 0 {
+	if rapid.IntRange(0, 49).Draw(t, label+"huge") == 49 { // 49, not 0: shrinking moves away from it
 		n = rapid.IntRange(401, 3600).Draw(t, label+"nh") // a whole family: 1h of 1s slots
 	}
 	mask, kind := genMask(t, label+"m", n)
